@@ -34,6 +34,9 @@ def normalize_index(index, ndim):
         return tuple([np.newaxis] + [slice(None) for i in range(ndim)])
     if index is Ellipsis:
         return tuple(slice(None) for i in range(ndim))
+    if isinstance(index, np.integer):
+        # e.g., the result of np.argmax or an element of np.arange
+        index = int(index)
     if isinstance(index, (slice, int)):
         return tuple([index] + [slice(None) for i in range(ndim - 1)])
     if isinstance(index, np.ndarray) and index.all():
@@ -64,6 +67,8 @@ def normalize_index(index, ndim):
         if isinstance(i, np.ndarray) and i.ndim == 1:
             # e.g., a boolean mask for one of the axes
             i = i.tolist()
+        if isinstance(i, np.integer):
+            i = int(i)
         if isinstance(i, (slice, int, list)):
             norm_index.append(i)
         elif i is np.newaxis:
